@@ -24,6 +24,9 @@ type c01Case struct {
 	PSerial  uint16 `json:"platform_serial"`
 	Body     string `json:"body_hex"`
 	Reuse    int    `json:"reuse"` // number of earlier encodes on the same header object
+	// PriorOther: the message object that decodes the source frame has decoded a frame of the OTHER header layout
+	// (2013 <-> 2019) before (one message value per connection, terminals of both generations)
+	PriorOther bool `json:"message_decoded_other_layout_first,omitempty"`
 }
 
 var c01Phones = []string{"000000000000", "000000000001", "013800138000", "123456789012", "7e7d01027e7d", "999999999999"}
@@ -39,27 +42,32 @@ type c01Src struct {
 
 func c01Sources() []c01Src {
 	var out []c01Src
-	for _, v19 := range []bool{false, true} {
-		for _, frag := range []bool{false, true} {
-			for _, enc := range []bool{false, true} {
-				phones := c01Phones
-				if v19 {
-					phones = c01Phones19
-				}
-				for _, ph := range phones {
-					for _, ser := range c01Serials {
-						h := ref.Header{ID: 0x0200, V2019: v19, Fragmented: frag, Serial: ser, PhoneBCD: unhx(ph)}
-						if v19 {
-							h.VersionNo = 1
+	for _, prior := range []bool{false, true} {
+		for _, v19 := range []bool{false, true} {
+			for _, frag := range []bool{false, true} {
+				for _, enc := range []bool{false, true} {
+					if prior && enc {
+						continue
+					}
+					phones := c01Phones
+					if v19 {
+						phones = c01Phones19
+					}
+					for _, ph := range phones {
+						for _, ser := range c01Serials {
+							h := ref.Header{ID: 0x0200, V2019: v19, Fragmented: frag, Serial: ser, PhoneBCD: unhx(ph)}
+							if v19 {
+								h.VersionNo = 1
+							}
+							if enc {
+								h.Encrypt = 1
+							}
+							if frag {
+								h.Total, h.Number = 3, 2
+							}
+							out = append(out, c01Src{c: c01Case{V2019: v19, Frag: frag, Encrypt: enc, PhoneBCD: ph, Serial: ser, SrcID: 0x0200, PriorOther: prior},
+								frame: ref.Encode(h, []byte{1, 2, 3})})
 						}
-						if enc {
-							h.Encrypt = 1
-						}
-						if frag {
-							h.Total, h.Number = 3, 2
-						}
-						out = append(out, c01Src{c: c01Case{V2019: v19, Frag: frag, Encrypt: enc, PhoneBCD: ph, Serial: ser, SrcID: 0x0200},
-							frame: ref.Encode(h, []byte{1, 2, 3})})
 					}
 				}
 			}
@@ -102,6 +110,15 @@ func c01Eval(c c01Case, steer int) (diag, sig string, escaped bool, cks byte) {
 	}
 	srcFrame := ref.Encode(h, []byte{1, 2, 3})
 	src := jt808.NewJTMessage()
+	if c.PriorOther {
+		oh := ref.Header{ID: 0x0002, V2019: !c.V2019, Serial: 77, PhoneBCD: unhx("013900139000")}
+		if oh.V2019 {
+			oh.VersionNo, oh.PhoneBCD = 1, unhx("00000000013900139000")
+		}
+		if err := src.Decode(exact(ref.Encode(oh, nil))); err != nil {
+			return "prior frame rejected: " + err.Error(), "source-rejected", false, 0
+		}
+	}
 	if err := src.Decode(exact(srcFrame)); err != nil {
 		return "source frame rejected: " + err.Error(), "source-rejected", false, 0
 	}
@@ -198,7 +215,7 @@ func init() {
 	vc.Register(&vc.Check{
 		ID:    "C01",
 		Level: "exploration",
-		Rule: "source headers = library decode of reference-encoded terminal frames (2 versions x fragmented x encrypt bit x 6 BCD phones x 6 serials = 288) " +
+		Rule: "source headers = library decode of reference-encoded terminal frames (2 versions x fragmented x encrypt bit x 6 BCD phones x 6 serials = 288, plus the 144 unencrypted ones decoded by a message value that has decoded a frame of the OTHER layout before) " +
 			"x reply IDs {0,8001,8100,007E,7E7D} x 7 platform serials x bodies (ALL strings over {7E,7D,01,02,00,FF} of length 0..5, and 7 patterns at lengths 6..16, 254..258, 998..1002, 1021..1023, " +
 			"each also with the last byte solved so that the checksum is 0x7E and 0x7D); quick = every (header,body) pair with rotating (reply ID, serial) plus every (header,reply ID,serial) triple on a 20-body menu, " +
 			"thorough = full product; a case is non-trivial when the framed bytes contain at least one escape pair; after each case 8 further messages (empty, short, same and longer bodies, same and a second header object) are framed and the first frame must be byte-identical to what it was",
